@@ -412,5 +412,6 @@ def ob_cli(fns):
         return ob
     ob.functions = sorted(eng.stats["functions"] | eng2.stats["functions"])
     ob.result = "pass"
+    ob.battery, ob.battery_features = ("cli", 14), ["x509-parser", "pem"]
     ob.bound_text = f"arbitrary option values with two alternative names; the four key algorithms of the ring build; {n_ok} Ok paths of main, {n_ok2} of parse_sans"
     return ob
